@@ -3,15 +3,16 @@
    Model = index/slice.hpp after the repair "fix: slice arithmetic follows python's slice.indices"
    (normalize_slice = PySlice_AdjustIndices in int64_t, integer ceiling for the length).  The faithful model keeps
    every int64_t / size_t conversion as an explicit wrap; the theorems show they are all identities for arguments of
-   the C++ types (int bounds and steps, extents below 2^62) and that the result is Python's — for EVERY such input:
+   the C++ argument types (bounds and steps of any integer type — int, int64_t, size_t — with magnitude below 2^62,
+   extents below 2^62) and that the result is Python's — for EVERY such input:
    no input class, no box.  (Before the repair only an input class `slice_core` was right, 5 127 of the 7 588 box
    inputs were wrong; those theorems and refutations are archived in /verif/fixes/C05_pre_repair.) *)
 From NM Require Import Base Slice SliceProofs.
 Local Open Scope Z_scope.
 
 (* One axis: the sliced axis has exactly the length Python's slice.indices gives and element k is source element
-   start' + k*step, for every extent below 2^62, all int bounds (None, negative, out of range: clamped) and
-   every non-zero int step (negative: walking backwards). *)
+   start' + k*step, for every extent below 2^62, all bounds of magnitude below 2^62 (oint_ok; None, negative, out of
+   range: clamped) and every non-zero step of magnitude below 2^62 (negative: walking backwards). *)
 Theorem C05_slice_python : forall n a b c,
   0 <= n < 2 ^ 62 -> oint_ok a -> oint_ok b -> oint_ok c -> py_step c <> 0 ->
   slice_len n a b c = Len (py_len n a b c)
@@ -75,7 +76,12 @@ Example C05_nonvacuous_axis :
   (* extents above 2^24 (the length went through binary32) and at 2^31-1 (undefined conversion) *)
   /\ slice_len (2 ^ 24 + 1) None None None = Len (2 ^ 24 + 1)
   /\ slice_len (2 ^ 31 - 1) (Some (-5)) None (Some (-2)) = Len 1073741822
-  /\ axis_dom (2 ^ 31 - 1) (Some (-5)) None (Some (-2)) = true.
+  /\ axis_dom (2 ^ 31 - 1) (Some (-5)) None (Some (-2)) = true
+  (* extents and bounds beyond 32 bits *)
+  /\ slice_len (2 ^ 31) None None None = Len (2 ^ 31)
+  /\ slice_len (2 ^ 31 - 2) (Some 0) (Some (2 ^ 31)) None = Len (2 ^ 31 - 2)
+  /\ slice_len (2 ^ 62 - 1) (Some (- 2 ^ 40)) (Some (2 ^ 62 - 1)) (Some (2 ^ 32 + 1)) = Len 256
+  /\ axis_dom (2 ^ 62 - 1) (Some (- 2 ^ 40)) (Some (2 ^ 62 - 1)) (Some (2 ^ 32 + 1)) = true.
 Proof. vm_compute. repeat split; reflexivity. Qed.
 Example C05_nonvacuous_multi :
   let sls := [SInt (-1); SEll; SRange None (Some 3) None; SRange (Some (-2)) None (Some (-2))] in
